@@ -758,7 +758,7 @@ def _eval_tree(t, env):
   return tuple(t)
 
 
-def check_wiring_tables(ctx):
+def check_wiring_tables(ctx, parts=('init', 'cm')):
   """translator self-check of the parts of wiring.json that are not exercised through function calls: the decision
   tree of ClassificationAggFn.__init__ (which class, which keywords), the field-wise sums of _ConfusionMatrix, the
   alias / copy decisions of merge_states and the order of update_state's operands — each evaluated from the table
@@ -770,7 +770,7 @@ def check_wiring_tables(ctx):
   met = importlib.import_module('ml_metrics._src.metrics.classification')
   base = importlib.import_module('ml_metrics._src.aggregates.base')
   # ---- __init__ tree
-  for av in ('binary', 'micro', 'macro', 'samples', 'weighted'):
+  for av in ('binary', 'micro', 'macro', 'samples', 'weighted') if 'init' in parts else ():
     for kl in (None, [], [1], [2, 1]):
       for it in ('binary', 'multiclass', 'multiclass-multioutput', 'multiclass-indicator'):
         env = dict(metrics=['precision'], pos_label=1, input_type=it, average=av, vocab={0: 0, 1: 1}, dtype=None, k_list=kl)
@@ -808,7 +808,7 @@ def check_wiring_tables(ctx):
                                           f'the generated tree predicts {want}, the real constructor gives {got}'))
   # ---- _ConfusionMatrix.__iadd__ / __add__ / update_state / merge_states
   M, G = W['cm_state'], W['agg_methods']
-  for _ in range(10 if ctx.quick else 100):
+  for _ in range((10 if ctx.quick else 100) if 'cm' in parts else 0):
     a = [rng.randrange(0, 9) for _ in range(4)]
     b = [rng.randrange(10, 99) for _ in range(4)]
     case = dict(t='wiring-cm', a=a, b=b, family='generated')
@@ -923,7 +923,13 @@ class C01(_Base):
 
 
 class C11(_Base):
-  LEAN_MODULES = ['MlModel.Properties.C11.Generated']
+  LEAN_MODULES = ['MlModel.Properties.C11.Generated', 'MlModel.Properties.C11.GeneratedCm']
+
+  @classmethod
+  def extra(cls, ctx):
+    super().extra(ctx)
+    check_wiring_tables(ctx, parts=('cm',))
+
   LABELS = SUMS + POOL
   N = (60, 600)
   RULE = ('generated merge methods vs the Python methods on scalar states; oracle: every field of the receiver is the '
